@@ -446,7 +446,6 @@ func isPrefix(a, b []string) bool {
 	return true
 }
 
-
 // ---------------------------------------------------------------------------
 // async family
 
